@@ -52,7 +52,7 @@ def seq_history(d, srv, rng, res):
             d.step(argv, probe=False, cellinfo=False)
         for _ in range(rng.randrange(2, 8)):
             kind = rng.choice(["exec", "exec", "exec", "discard", "nested", "nomulti", "interleaved", "disconnect",
-                               "disconnect-after-exec", "blocked-waiter", "blocked-waiter"])
+                               "disconnect-after-exec", "blocked-waiter", "blocked-waiter", "after-watch-abort"])
             cmds = []
             for _j in range(rng.randrange(0, 7)):
                 a = gen_any(rng, m, 0)
@@ -97,6 +97,24 @@ def seq_history(d, srv, rng, res):
                         for w in wr:
                             m.apply(0, w)
                 continue
+            if kind == "after-watch-abort":
+                # a transaction refused because a watched key changed leaves nothing behind: not its
+                # effects, and not its queue - the next transaction on this connection runs its own commands only
+                wk = rng.choice(gen.KEYS)
+                c.cmd("WATCH", wk)
+                wcmd = [b"SET", wk, b"changed-by-other-%d" % rng.randrange(10 ** 6)]
+                other.cmd(*wcmd)
+                m.apply(0, wcmd)
+                c.cmd("MULTI")
+                doomed = [[b"SET", b"doomed:%d" % j, b"x"] for j in range(rng.randrange(1, 4))] + [[b"RPUSH", b"doomed:l", b"x"]]
+                for a in doomed:
+                    c.cmd(*a)
+                ex0 = c.cmd("EXEC")
+                res.evaluations += 1
+                res.cell("after-watch-abort", "aborted" if ex0 is NULL_ARRAY else "not-aborted")
+                if ex0 is not NULL_ARRAY:
+                    d.diverge("watch-abort/exec-reply", "WATCH %s; [other] SET %s; MULTI; ...; EXEC -> %s, expected nil" % (resp.show(wk), resp.show(wk), resp.show(ex0, 40)))
+                d.history.append([b"<aborted by WATCH>"] + [b" ".join(x) for x in doomed])
             waiter = None
             if kind == "blocked-waiter":
                 # a third client parked in a blocking pop on keys the transaction is going to push to:
@@ -164,6 +182,11 @@ def seq_history(d, srv, rng, res):
                     d.diverge("exec-reply/slot/%s" % a[0].upper().decode("latin1"),
                               "transaction %s: slot %d (%s) -> %s, expected %r" % (resp.show(cmds, 30), i, resp.show(a), resp.show(act), exp))
             res.cell(kind, min(len(cmds), 4), "with-runtime-error" if nerr else "clean")
+            if kind == "after-watch-abort":
+                left = c.cmd("EXISTS", "doomed:0", "doomed:1", "doomed:2", "doomed:l")
+                if left != 0:
+                    d.diverge("watch-abort/effects-later", "commands of a transaction refused by WATCH took effect during the NEXT transaction on the connection: "
+                              "EXISTS doomed:* -> %r" % (left,))
             if waiter is not None:
                 server.wait_loops(c, 3)
                 ready = [wk for wk in wkeys if m.snapshot_key(0, wk)[0] == "list"]
